@@ -4,7 +4,8 @@ import re
 from . import common as C
 from . import programs as P
 from . import values as V
-from .decprops import (CFGS, TB_COMMON, corpus_files, dec_class, enc_project, enc_tie, hexs, own_corpus, run_both, second_encode_tie, float_text_instances)
+from .decprops import (CFGS, TB_COMMON, corpus_files, dec_class, enc_project, enc_tie, hexs, own_corpus, run_both, second_encode_tie, float_text_instances,
+                       second_encode_after_write_failure)
 
 GO_NAN = 0x7ff8000000000001
 
@@ -181,6 +182,26 @@ class C03:
             for v in (("l", [("I", i % 7) for i in range(k)]), ("t", [("I", i % 5) for i in range(k)]), ("l", [("N",), ("l", [("I", 1)] * k)])):
                 for p in ((1, 2, 4) if not ctx.thorough else range(6)):
                     out.append((p, rng.random() < 0.5, rng.random() < 0.5, v))
+        # pairs of numeric keys that are different numbers but collide when a conversion wraps (2^63 as float / long / uint64 against
+        # -2^63, 2^64 - 1 against -1, ...), together in one builtin map - which the decoder in PyDict mode turns into one Dict
+        wrap = [("I", -2 ** 63), ("D", 0x43e0000000000000), ("L", 2 ** 63), ("U", 2 ** 63), ("I", -1), ("L", 2 ** 64 - 1), ("U", 2 ** 64 - 1),
+                ("I", 2 ** 63 - 1), ("D", 0xc3e0000000000000), ("L", -2 ** 63 - 1), ("L", 2 ** 64), ("I", 0), ("D", 0x43f0000000000000)]
+        for i, a in enumerate(wrap):
+            for b in wrap[i + 1:]:
+                def num(x):
+                    return V.bits_f64(x[1]) if x[0] == "D" else x[1]
+                if (a[0] == "D" and b[0] == "D") or num(a) == num(b):
+                    continue        # the same number twice is one key in Python too (a non-canonical map: outside the statement)
+                for p in (0, 2, 4):
+                    out.append((p, True, rng.random() < 0.5, ("m", [(a, ("I", 1)), (b, ("I", 2))])))
+        # long flat lists of values with fixed-size binary operands (8-byte floats, 4-byte and 2-byte ints) after prefixes of every
+        # length mod 9: every operand position relative to the 4096-byte read buffer occurs
+        for shift in range(9):
+            pre = ("S", b"p" * shift)
+            for p in ((1, 2, 4) if not ctx.thorough else range(6)):
+                out.append((p, False, False, ("l", [pre] + [("D", 0x3ff0000000000000 + 0x0102030405 * i) for i in range(700)])))
+                out.append((p, False, False, ("l", [pre] + [("I", 100000 + 257 * i) for i in range(1200)])))
+                out.append((p, False, False, ("l", [pre] + [("I", 256 + i) for i in range(1800)])))
         # very many SMALL containers in one flat value (12000 one- to three-item tuples, empty tuples, one-item lists, one-entry
         # maps): per-container bookkeeping of the encoder (a depth counter, a scratch buffer) is exercised 12000 times in one Encode
         for small in (("t", [("I", 1), ("I", 2)]), ("t", []), ("t", [("N",)]), ("l", [("I", 1)]), ("m", [(("I", 1), ("N",))]), ("t", [("I", 1)] * 4)):
@@ -532,6 +553,10 @@ class C12:
             if vd != "OK":
                 ctx.violate("the encoder's output does not conform to the requested protocol: " + vd, line[:3000], "OK", sl[:2000])
                 continue
+            pp = dict_parity_problem(data)
+            if pp:
+                ctx.violate("stack discipline: " + pp, line[:3000], "pairs", sl[:600])
+                continue
             # cross-check the Lean scanner with pickletools on the same bytes
             try:
                 ops = list(pickletools.genops(data))
@@ -590,8 +615,13 @@ class C12:
                 ctx.violate("the encoder's output for a Go value does not conform to the requested protocol: " + vd,
                             line + "   value: " + desc[:1200], "OK", sl[:1500])
                 continue
+            raw = bytes.fromhex(sl.split(" ")[2]) if sl.split(" ")[2] != "-" else b""
+            pp = dict_parity_problem(raw)
+            if pp:
+                ctx.violate("stack discipline: " + pp, line + "   value: " + desc[:1200], "pairs", sl[:600])
+                continue
             try:
-                list(pickletools.genops(bytes.fromhex(sl.split(" ")[2]) if sl.split(" ")[2] != "-" else b""))
+                list(pickletools.genops(raw))
             except ValueError as e:
                 if "invalid literal for int" in str(e) or "could not convert string to float" in str(e):
                     ctx.violate("argument layout: the text argument of a numeric opcode is not a number (" + str(e)[:80] + ")",
@@ -759,6 +789,38 @@ class C13:
 
 
 # ------------------------------------------------------------------------------------------- C15
+
+def dict_parity_problem(data):
+    """DICT and SETITEMS take key / value PAIRS from above the topmost MARK: an odd number of items there is a malformed pickle
+    (CPython: "odd number of items for DICT").  Walks the opcodes with pickletools' own stack signatures."""
+    import pickletools
+    stack = []
+    try:
+        for op, arg, pos in pickletools.genops(data):
+            before, after = op.stack_before, op.stack_after
+            if pickletools.markobject in before:
+                n = 0
+                while stack and stack[-1] != "M":
+                    stack.pop()
+                    n += 1
+                if not stack:
+                    return f"{op.name} at {pos}: no MARK"
+                stack.pop()
+                if op.name in ("DICT", "SETITEMS") and n % 2:
+                    return f"{op.name} at {pos}: {n} items above the MARK (key without value)"
+                for _ in range(before.index(pickletools.markobject)):
+                    if stack:
+                        stack.pop()
+            else:
+                for _ in before:
+                    if stack:
+                        stack.pop()
+            for a in after:
+                stack.append("M" if a is pickletools.markobject else "x")
+    except Exception:   # noqa  (display limits of pickletools: not this function's subject)
+        return None
+    return None
+
 
 DIRECTED_REFLECT = 50 * 8 * 3      # (leaf types of the harness generator, rounded up) x container kinds x repetitions with different content
 
